@@ -208,6 +208,12 @@ def check(case, obs, tally):
         if status != 500:
             out.append({"clause": "response", "sig": "C17.response/failure-not-500/%s" % shape, "detail": "status %r" % status})
     elif raises_mid:
+        # once at least one chunk had been yielded the response was started: the failure must leave it visibly incomplete
+        started_before_failure = shape != "raise_after" and t["raise_at"] is not None and t["raise_at"] >= 1
+        if started_before_failure and complete and status == exp_status:
+            out.append({"clause": "response", "sig": "C17.response/falsely-complete-after-error/%s" % shape,
+                        "detail": "iteration raised at chunk %r after the response had started, but the client parsed a complete %r response (%d bytes)" % (
+                            t["raise_at"], status, len(rbody))})
         if complete and status == exp_status and rbody == b"".join(t["chunks"]) and b"".join(t["chunks"]) and t["raise_at"] is not None and t["raise_at"] < len(t["chunks"]):
             out.append({"clause": "response", "sig": "C17.response/complete-despite-error", "detail": "iteration raised at chunk %r but the client got the complete body" % t["raise_at"]})
     else:
